@@ -26,6 +26,7 @@ func c19chan(v int) (chan int, []int) {
 	for i := 0; i < f; i++ {
 		x := vInt("queued")
 		vAssume(x != v)
+		vAssume(x != 0)
 		for _, y := range q {
 			vAssume(x != y)
 		}
@@ -188,6 +189,20 @@ func VHRecvQueued() {
 	if want > len(q) {
 		want = len(q)
 	}
+	// optionally a competing consumer takes one value at an arbitrary moment
+	compete := vParam("COMPETE") == 1 && vChoose("compete", 2) == 1
+	var stolen []int
+	if compete {
+		vGo(func() {
+			select {
+			case x, ok := <-ch:
+				if ok {
+					stolen = append(stolen, x)
+				}
+			default:
+			}
+		})
+	}
 	var got []int
 	done := false
 	vGo(func() {
@@ -210,6 +225,29 @@ func VHRecvQueued() {
 	vWait()
 	vAssert(done, "RecvQueued* never block")
 	if !done {
+		return
+	}
+	if compete {
+		// with a second consumer: a FIFO-ordered subsequence of the queued values, nothing invented,
+		// nothing lost or duplicated overall
+		rest := c19drain(ch)
+		vAssert(len(got) <= want, "RecvQueued* never return more than the limit or than was queued")
+		last := -1
+		for _, x := range got {
+			at := -1
+			for j, y := range q {
+				if x == y {
+					at = j
+				}
+			}
+			vAssert(at >= 0, "RecvQueued* return only values that were sent (competing consumer)")
+			vAssert(at > last, "RecvQueued* keep FIFO order (competing consumer)")
+			last = at
+		}
+		vAssert(len(got)+len(stolen)+len(rest) == len(q), "no value is lost or duplicated between RecvQueued*, a competing consumer and the channel")
+		if len(stolen) == 1 && len(got) >= 1 {
+			vCover("recvqueued: competing consumer took a value")
+		}
 		return
 	}
 	vAssert(len(got) == want, "RecvQueued* return exactly the values already queued, up to the limit, adding nothing that was never sent")
